@@ -3,9 +3,9 @@ package props
 import (
 	"fmt"
 	"os"
+	"strings"
 
 	"voicheck/edt"
-	"voicheck/emod"
 	"voicheck/load"
 )
 
@@ -22,8 +22,15 @@ func DumpDT(cfg, pkg, fn string) {
 		fmt.Println("cannot resolve", pkg, fn)
 		os.Exit(2)
 	}
-	m := emod.New(p, nil)
-	paths := edt.Walk(&edt.Config{P: p, Mod: m}, f)
+	m := modFor(p)
+	dcfg := &edt.Config{P: p, Mod: m, SymLoops: os.Getenv("DT_SYMLOOPS") != ""}
+	if os.Getenv("DT_OPAQUE") != "" {
+		dcfg.Opaque = map[string]bool{}
+		for _, o := range strings.Split(os.Getenv("DT_OPAQUE"), ",") {
+			dcfg.Opaque[o] = true
+		}
+	}
+	paths := edt.Walk(dcfg, f)
 	fmt.Printf("%s: %d paths, atoms:\n", load.FuncName(f), len(paths))
 	for _, a := range edt.Atoms(paths) {
 		fmt.Println("  ATOM", a)
@@ -47,5 +54,22 @@ func DumpDT(cfg, pkg, fn string) {
 				fmt.Printf("      event %s\n", e)
 			}
 		}
+	}
+}
+
+// DumpMod prints the may-write summaries of functions whose name contains substr.
+func DumpMod(cfg, substr string) {
+	p, err := load.Load(cfg, load.Opts{SSA: true})
+	if err != nil {
+		fmt.Println(err)
+		os.Exit(2)
+	}
+	m := modFor(p)
+	for _, fn := range p.ModuleFuncs() {
+		if !strings.Contains(load.FuncName(fn), substr) {
+			continue
+		}
+		s := m.Sum[fn]
+		fmt.Printf("%s reads=%v writes=%v returns=%v globals=%v\n", load.FuncName(fn), s.Reads, s.Writes, s.Returns, s.WritesGlobals)
 	}
 }
